@@ -13,10 +13,21 @@ Operations (keys of the request):
   wgrid   : write_grid_image_single on explicit weights/accums (float32/float64/int8 grids).
 """
 import json
+import os
 import sys
 import warnings
 
 import numpy as np
+
+# _fornav rebuilt out-of-tree from the CURRENT _fornav.cpp + _fornav_templates.cpp/.h (harness/c08.py:build_fornav):
+# pre-loaded under the module's own name so that edits of the hand-written C++ take effect.
+_SO = os.environ.get("C08_FORNAV_SO")
+if _SO:
+    import importlib.util
+    _spec = importlib.util.spec_from_file_location("pyresample.ewa._fornav", _SO)
+    _mod = importlib.util.module_from_spec(_spec)
+    sys.modules["pyresample.ewa._fornav"] = _mod
+    _spec.loader.exec_module(_mod)
 
 warnings.filterwarnings("ignore")
 import dask  # noqa: E402
@@ -30,6 +41,8 @@ from pyresample.ewa import fornav, ll2cr  # noqa: E402
 from pyresample.geometry import AreaDefinition, SwathDefinition  # noqa: E402
 
 dask.config.set(scheduler="synchronous")
+if _SO:
+    assert os.path.samefile(_fornav.__file__, _SO) and dask_ewa.fornav_weights_and_sums_wrapper.__module__ == _fornav.__name__
 
 
 def H(x):
